@@ -74,11 +74,91 @@ def every_segment(P, rep, key):
             if not inl:
                 continue
             srcs = [s_ for s_, h_ in G.back_edges(bb_) if h_ == head]
-            okseg = len(calls2) == 1 and all(G.dominates(idom, inl[0], s_) for s_ in srcs)
+            okseg = len(calls2) == 1 and all(G.dominates(idom, inl[0], s_) or _round_of_empty_segment(P, kb, bb_, idom, s_) for s_ in srcs)
         rep.ob(key, okseg, "pass 2 walks the items of every segment, of whatever type, in order (one call per round of the segment loop)" if okseg else
                "pass 2's item loop is not run for every segment (the call of pass_2_internal does not lie on every round of the segment loop): .set/.def/.undef written in a skipped segment type are never applied")
     else:
         rep.unprovable(key, "build_pass_2 not found")
+
+
+def _round_of_empty_segment(P, key, b, idom, src):
+    """a round of the segment loop that ends early is fine when it is the round of a segment without items: there is nothing to walk.
+    True iff `src` lies behind the taken side of a branch on Vec::is_empty(<segment>.items)."""
+    fields = [f["name"] for f in P.lib.adts["parser::Segment"]["variants"][0]["fields"]]
+    fi = fields.index("items")
+    ch = MU.Chaser(b)
+    for bi, bl in enumerate(b["blocks"]):
+        t = bl["term"]
+        if t["k"] != "switch" and t["k"] != "switchInt":
+            continue
+        disc = t.get("discr") or t.get("op")
+        r = ch.root(disc, through_calls=False) if disc else (None, [], [])
+        d = ch.single_def(r[0]) if r[0] is not None else None
+        if not (d and d[0] == "call" and MU.callee_names(d[2])[1].endswith("Vec::<T, A>::is_empty")):
+            continue
+        recv = ch.root(d[2]["args"][0], through_calls=False)
+        if MU.proj_fields(recv[1])[-1:] != [fi]:
+            continue
+        # the side taken when is_empty is true: every target but the one for value 0
+        targets = t.get("targets") or []
+        zero = [tg for v, tg in targets if str(v) == "0"]
+        taken = [tg for v, tg in targets if str(v) != "0"] + ([t["otherwise"]] if t.get("otherwise") is not None else [])
+        taken = [x for x in taken if x not in zero]
+        if any(G.dominates(idom, x, src) for x in taken):
+            return True
+    return False
+
+
+def one_meaning(P, rep, rows1):
+    """A name stands for one thing.  (labels) a label is bound only when no constant, variable or alias has the name; (.def) every .def line
+    that does not fail stores its alias, and only when the name is free; (.equ) a definition is stored only when the name is free or
+    already stands for the very same expression."""
+    def lookup_none(r, what):
+        for e, t in r.conds:
+            m = re.match(r"^\(%s\(common_context\*, .*\)#d == ([01])\)$" % what, sx.show(e))
+            if m and ((m.group(1) == "1") != t):
+                return True
+        return False
+
+    cont = [r for r in rows1 if r.item == "Label" and r.exit == "loop"]
+    ok = bool(cont) and all(lookup_none(r, "get_expr") and lookup_none(r, "get_def") for r in cont)
+    rep.ob("C10.unique|label", ok, "a label is bound only when nothing else has its name (no constant, variable, flag or alias)" if ok else
+           "a label is bound without asking whether a constant, variable or alias of that name exists: `.equ foo = 5` next to `foo:` is accepted and every reference silently takes one of the two")
+    rows2, _, _ = L.pass2_rows(P)
+    dcont = [r for r in rows2 if r.item == "Def" and r.exit == "loop"]
+    stores = lambda r: any(e[0] == 'call' and e[1].endswith("::insert") and "defs" in str(e[2][0]) for e in r.events)
+    ok = bool(dcont) and all(stores(r) and lookup_none(r, "get_expr") and lookup_none(r, "get_def") for r in dcont)
+    bad = [r for r in dcont if not stores(r)]
+    rep.ob("C10.unique|def", ok, "every .def line either stores its alias - the name being free - or fails the build" if ok else
+           ("a .def line can pass without storing its alias and without an error (%d such paths): the line is ignored, a later use takes the earlier meaning" % len(bad) if bad else
+            "a .def is stored without asking whether the name is in use"))
+    import rules_C08
+    fn = "directive::Directive::parse"
+    dv = rules_C08.dvariants(P)
+    inv = {n: d for d, n in dv.items()}
+    M = absint.Machine(P, max_depth=4, opaque={"expr::Expr::run", "parser::parse_file_internal", "context::Context::exist"})
+    paths = M.explore(fn, M.arg_unknowns(fn), doms={sx.S("self*#d", 64, True): sx.dom_set([inv["Equ"]])})
+    stored = [p for p in paths if p.exit == "Ok" and any(e[0] == 'call' and e[1].endswith("::insert") and "equs" in str(e[2][0]) for e in p.events)]
+    why = []
+    for p in stored:
+        free = same = infeasible = False
+        for e, t in p.conds:
+            sh = sx.show(e)
+            if re.match(r"^\(exist\(.*\)(@\d+)? == 0\)$", sh) and t:
+                free = True
+            # None compared with Some(..): never equal, whatever the (opaque) comparison is taken to answer
+            m = re.match(r"^\((?:[\w:<> ]*::)?(ne|eq)\(Option::None, Option::Some\(.*\)\)(@\d+)? == 0\)$", sh)
+            if m and ((m.group(1) == "ne") == t):
+                infeasible = True
+            m = re.match(r"^\((?:[\w:<> ]*::)?(ne|eq)\((.*)\)(@\d+)? == 0\)$", sh)
+            if m and "equs" in m.group(2) and "opts*:Assign.1" in m.group(2):
+                same = t if m.group(1) == "ne" else (not t)
+        if not (free or same or infeasible):
+            why.append("a .equ is stored although the name may stand for something else already")
+    if not stored:
+        why.append("no path stores a .equ")
+    rep.ob("C10.unique|equ", not why, "a .equ is stored only when its name is free or already stands for the same expression" if not why else
+           "%s: `.equ K = 1` ... `.equ K = 2` gives every reference, also those in front of the second line, the value 2" % why[0])
 
 
 def ident_paths(P):
@@ -230,14 +310,26 @@ def run(tier):
                 return sx.dom_min(d)
         return None
 
-    ok = bool(dup_err) and all(ins_d(r) == 1 for r in dup_err) and bool(dup_ok) and all(ins_d(r) == 0 for r in dup_ok)
-    rep.ob("C10.duplicate-label", ok, "binding a label that already exists (insert returned Some) fails the build; a new one continues" if ok else
+    def found_in_labels(r):
+        """a lookup in the labels table (a check in front of the insert) that found the name"""
+        for s, d in r.state.doms.items():
+            if isinstance(s, tuple) and s[0] == 's' and re.match(r"^(std::)?collections::HashMap::<K, V, S, A>::get\([^()]*\.labels\b", s[1]) and s[1].endswith(")#d") and sx.dom_size(d) == 1:
+                if sx.dom_min(d) == 1:
+                    return True
+        return False
+
+    # a path that goes on has bound a name that was new (the insert's own result is None); some failing path is the one for a name that is
+    # a label already (the insert returned Some, or a lookup in the labels table in front of it found the name)
+    ok = bool(dup_ok) and all(ins_d(r) == 0 and not found_in_labels(r) for r in dup_ok) and \
+        any(ins_d(r) == 1 or found_in_labels(r) for r in dup_err)
+    rep.ob("C10.duplicate-label", ok, "binding a label that already exists fails the build; a new one continues" if ok else
            "the result of the label insert is not checked: duplicate labels are accepted (Err paths %d, continue paths %d)" % (len(dup_err), len(dup_ok)))
+    one_meaning(P, rep, rows1)
     # every kind of line that can carry a label yields its Label item, before anything else of the line
     import lineitems
     lineitems.check(P, rep, "C10.label|line", want_labels=True, want_instruction=False)
     # label insert really targets the labels map
-    okl = all(any(e[0] == 'call' and e[1].endswith("::insert") and "labels" in e[2][0] for e in r.events) for r in labs) and bool(labs)
+    okl = all(any(e[0] == 'call' and e[1].endswith("::insert") and "labels" in e[2][0] for e in r.events) for r in dup_ok) and bool(dup_ok)
     rep.ob("C10.label|map", okl, "labels are bound in the labels table" if okl else "label binding does not go to the labels table")
     rows2, _, _ = L.pass2_rows(P)
     und = [r for r in rows2 if r.item == "Undef"]
